@@ -183,9 +183,17 @@ class Flattener:
             if d is not None:
                 dmap[a.arg] = d
         actual: dict[str, ast.AST] = {}
-        if len(call.args) > len(formals):
+        call_args = list(call.args)
+        explicit_recv = None
+        if recv_formal is not None and isinstance(call.func, ast.Attribute) and isinstance(call.func.value, ast.Name) and call.func.value.id in self.repo.classes \
+                and "classmethod" not in decos and call_args:
+            # Class.method(obj, ...): the receiver is the first positional argument
+            explicit_recv, call_args = call_args[0], call_args[1:]
+            if not _simple(explicit_recv):
+                return None
+        if len(call_args) > len(formals):
             return None
-        for f, a in zip(formals, call.args):
+        for f, a in zip(formals, call_args):
             actual[f] = a
         for k in call.keywords:
             if k.arg not in formals + kwonly or k.arg in actual:
@@ -204,7 +212,7 @@ class Flattener:
         subst: dict[str, ast.AST] = {}
         prologue: list[ast.stmt] = []
         if recv_formal is not None:
-            recv = call.func.value if isinstance(call.func, ast.Attribute) else ast.Name(id="self", ctx=ast.Load())
+            recv = explicit_recv if explicit_recv is not None else (call.func.value if isinstance(call.func, ast.Attribute) else ast.Name(id="self", ctx=ast.Load()))
             if recv_formal != unparse(recv):
                 subst[recv_formal] = recv
         stored_in_body = _names_stored(body)
@@ -245,6 +253,7 @@ class Flattener:
                     continue
                 if isinstance(s, ast.Return):
                     out.extend(make(s.value, s))
+                    # `top` = tail position: nothing of the helper runs after this block falls through
                     last_top = top and i == len(stmts) - 1
                     if in_loop:
                         used_flag = True
@@ -257,12 +266,16 @@ class Flattener:
                 before = used_flag
                 if is_loop:
                     used_flag = False
+                tail_here = top and i == len(stmts) - 1 and not is_loop
                 for name in ("body", "orelse", "finalbody"):
                     sub = getattr(s, name, None)
                     if isinstance(sub, list) and sub and isinstance(sub[0], ast.stmt):
-                        setattr(s, name, rw(sub, False, (in_loop or is_loop) if name == "body" else in_loop))
+                        # tail position is inherited by the arms of a trailing if / with, by the else and (if there is
+                        # neither else nor finally) the body of a trailing try, and by its handlers
+                        t_ = tail_here and (isinstance(s, (ast.If, ast.With)) or (isinstance(s, ast.Try) and not s.finalbody and (name == "orelse" or (name == "body" and not s.orelse))))
+                        setattr(s, name, rw(sub, t_, (in_loop or is_loop) if name == "body" else in_loop))
                 for h in getattr(s, "handlers", []) or []:
-                    h.body = rw(h.body, False, in_loop)
+                    h.body = rw(h.body, tail_here and isinstance(s, ast.Try) and not s.finalbody, in_loop)
                 out.append(s)
                 if is_loop:
                     if used_flag:
